@@ -79,10 +79,10 @@ Proof. exact serialize_value_id. Qed.
 Print Assumptions C02_nested_payload_survives_dump.
 
 (** The parser on ANY valid wire form (not only the constructors' output).
-    Full strength: every valid message round-trips.  The model refutes it: an
-    error response whose id is null (valid JSON-RPC 2.0; emitted by the stdio
-    client's batch rejection) parses to an object that is none of
-    request / notification / response. *)
+    Full strength: every valid message round-trips under both back ends.  The
+    model refutes it for the fallback back end: a response whose result is null
+    (valid JSON-RPC 2.0, never built by a constructor) is refused there (the
+    required-Any-null difference recorded under C09). *)
 Definition C02_parser_roundtrips_every_valid_message_statement : Prop :=
   parser_roundtrips_every_valid_message.
 
@@ -91,15 +91,21 @@ Theorem C02_parser_roundtrips_every_valid_message_refuted :
 Proof. exact parser_roundtrips_every_valid_message_refuted. Qed.
 Print Assumptions C02_parser_roundtrips_every_valid_message_refuted.
 
-(** The strongest true restriction: every valid message except a null-id error
-    response (and, under the fallback back end only, a null result) round-trips. *)
+(** The strongest true restriction: every valid message round-trips - requests,
+    notifications, results, errors with an integer, a string or a NULL id -
+    except, under the fallback only, a null result. *)
 Theorem C02_parser_roundtrips_every_valid_message_partial : forall fb m k,
   classify (JObj m) = inr k ->
-  (k = KErr -> field k_id m <> JNull) ->
   (fb = true -> k = KRes -> field k_result m <> JNull) ->
   exists e, parse_message fb (JObj m) = Some e /\ view_of_msg e = view_of_wire (JObj m).
 Proof. exact parse_valid. Qed.
 Print Assumptions C02_parser_roundtrips_every_valid_message_partial.
+
+Theorem C02_parser_roundtrips_every_valid_message_pydantic : forall m k,
+  classify (JObj m) = inr k ->
+  exists e, parse_message false (JObj m) = Some e /\ view_of_msg e = view_of_wire (JObj m).
+Proof. exact parse_valid_pydantic. Qed.
+Print Assumptions C02_parser_roundtrips_every_valid_message_pydantic.
 
 (** create_request(progress_token=t): when it does not raise, params._meta is an
     object whose progressToken is t (with its JSON type), every other member of
@@ -113,30 +119,19 @@ Theorem C02_progress_token_carried : forall params tok p,
 Proof. exact progress_token_carried. Qed.
 Print Assumptions C02_progress_token_carried.
 
-(** BatchProcessor.create_batch_rejection_error: always a valid error response;
-    it round-trips when given an id ... *)
+(** BatchProcessor.create_batch_rejection_error: always a valid error response,
+    and it round-trips for every id argument - None (a null id on the wire, what
+    the stdio client sends when it rejects a batch) included. *)
 Theorem C02_batch_rejection_valid : forall i msg data,
   classify (batch_rejection_error i msg data) = inr KErr.
 Proof. exact batch_rejection_valid. Qed.
 Print Assumptions C02_batch_rejection_valid.
 
-Theorem C02_batch_rejection_roundtrip_partial : forall fb i msg data,
-  exists e, parse_message fb (batch_rejection_error (Some i) msg data) = Some e
-            /\ Spec_roundtrip (batch_rejection_error (Some i) msg data) (view_of_msg e).
-Proof. exact batch_rejection_roundtrip_with_id. Qed.
-Print Assumptions C02_batch_rejection_roundtrip_partial.
-
-(** ... and, at full strength (any id argument, None included), does not. *)
-Definition C02_batch_rejection_roundtrip_statement : Prop := every_batch_rejection_roundtrips.
-
-Theorem C02_batch_rejection_roundtrip_refuted : ~ C02_batch_rejection_roundtrip_statement.
-Proof. exact every_batch_rejection_roundtrips_refuted. Qed.
-Print Assumptions C02_batch_rejection_roundtrip_refuted.
-
-Theorem C02_batch_rejection_null_id_loses_kind : forall fb msg data,
-  exists e, parse_message fb (batch_rejection_error None msg data) = Some e /\ view_of_msg e = None.
-Proof. exact batch_rejection_null_id_loses_kind. Qed.
-Print Assumptions C02_batch_rejection_null_id_loses_kind.
+Theorem C02_batch_rejection_roundtrip : forall fb i msg data,
+  exists e, parse_message fb (batch_rejection_error i msg data) = Some e
+            /\ Spec_roundtrip (batch_rejection_error i msg data) (view_of_msg e).
+Proof. exact batch_rejection_roundtrip. Qed.
+Print Assumptions C02_batch_rejection_roundtrip.
 
 (** Non-vacuity: a request with a digit-string id, a 2^64-1 integer and nulls
     nested two levels deep in params is built, is valid, and parses back to the
